@@ -52,6 +52,10 @@ def propsStep (p : Props) : List String → Props × String
         | .error _ => false
       (p, (if acc then "ok " else "rejected ") ++ showView p)
     | none => (p, "bad-op")
+  | ["del", name] => (match p.delAttr name with
+    | some p' => (p', "ok " ++ showView p')
+    | none => (p, "AttributeError"))
+  | ["clear"] => (p.clear, "ok " ++ showView p.clear)
   | ["pack"] => (p, match p.pack with | .ok b => toHex b | .error e => showExcName e)
   | ["unpack", pt, h] =>
     match pt.toNat?, parseHex h with
